@@ -9,6 +9,7 @@ import AquaDrv.C26Ops
 import AquaDrv.C24Ops
 import AquaDrv.C25Ops
 import AquaDrv.C23Ops
+import AquaDrv.C18Ops
 /-! Line-protocol driver of the model: one JSON request per line on stdin, one JSON answer per line. -/
 open Lean Aqua
 
@@ -30,6 +31,7 @@ def dispatch (j : Json) : Json :=
   | "c23_parse" => C23.opParse j
   | "c23_validate" => C23.opValidate j
   | "c23_char_class" => C23.opCharClass j
+  | "c18_exec" => opC18Exec j
   | "ping" => Json.mkObj [("pong", true)]
   | op => Json.mkObj [("error", s!"unknown op {op}")]
 
